@@ -1,9 +1,10 @@
 package storage
 
 import (
-	"math/big"
 	"encoding/json"
+	"errors"
 	"fmt"
+	"math/big"
 	"strconv"
 	"strings"
 
@@ -438,6 +439,23 @@ func c20Roots(env *mc.Env) ([]*c20Root, error) {
 		for _, vm := range both {
 			th, err := c20Thresholds(k, vm)
 			if err != nil {
+				// a kind whose small start containers cannot even be built and saved: report
+				// that as violations of the property and go on with the other kinds
+				reported := false
+				for _, n := range []int{0, 1, 2, 3} {
+					probe := &c20Root{K: k, VM: vm, Start: n, Bulk: 60}
+					if k.Cont == "const" && n == 0 {
+						continue
+					}
+					var sf *c20SetupFailure
+					if _, e := c20InitState(probe); errors.As(e, &sf) {
+						env.R.Violation(sf.sig(), c20Case{Root: sf.Root}, short(sf.Error(), 600))
+						reported = true
+					}
+				}
+				if reported {
+					continue
+				}
 				return nil, fmt.Errorf("%s %s: %w", k, engName(vm), err)
 			}
 			sizes := []int{0, 1, th.Inline - 1, th.Inline, th.Split - 1, th.Split}
@@ -459,11 +477,30 @@ func c20Roots(env *mc.Env) ([]*c20Root, error) {
 	return roots, nil
 }
 
+// c20SetupFailure: building and saving the start container (append / insert
+// of n fresh elements, then save) is itself a history of the property; if it
+// fails at run time although the program is well-formed, that is a violation.
+type c20SetupFailure struct {
+	Root c20Root
+	Res  *rt.Result
+}
+
+func (f *c20SetupFailure) Error() string {
+	return fmt.Sprintf("cannot build start state %+v: %s", f.Root, f.Res.ErrString())
+}
+
+func (f *c20SetupFailure) sig() string {
+	return fmt.Sprintf("%s|start|%d|failed-%s|stored|%s", f.Root.K, f.Root.Start, f.Res.Class, engName(f.Root.VM))
+}
+
 func c20InitState(root *c20Root) (c20State, error) {
 	l := c20BaseLedger(root.K, root.VM)
 	r := rt.Run(l, rt.Tx{Source: c20SaveTx(root.K, root.Start), Signers: signers(1), UseVM: root.VM, NoAtreeValidation: true})
 	if !r.OK() {
-		return c20State{}, fmt.Errorf("cannot build start state %+v: %s", *root, r.ErrString())
+		if strings.Contains(r.Kind, "CheckerError") || strings.Contains(r.Kind, "ParserError") {
+			return c20State{}, fmt.Errorf("ill-formed start state program %+v: %s", *root, r.ErrString())
+		}
+		return c20State{}, &c20SetupFailure{Root: *root, Res: r}
 	}
 	return c20State{Root: root, L: l, M: c20StartModel(root.K, root.Start)}, nil
 }
@@ -479,6 +516,11 @@ func runC20(env *mc.Env) {
 	for _, r := range roots {
 		thr[r.K.String()+"/"+engName(r.VM)] = r.Th
 		st, err := c20InitState(r)
+		var sf *c20SetupFailure
+		if errors.As(err, &sf) {
+			env.R.Violation(sf.sig(), c20Case{Root: sf.Root}, short(sf.Error(), 600))
+			continue
+		}
 		if err != nil {
 			env.R.HarnessError("C20: %v", err)
 			return
@@ -536,6 +578,10 @@ func replayC20(env *mc.Env, raw json.RawMessage) (bool, string) {
 	}
 	root := c.Root
 	st, err := c20InitState(&root)
+	var sf *c20SetupFailure
+	if errors.As(err, &sf) {
+		return true, "start state: " + sf.sig() + ": " + short(sf.Error(), 1200)
+	}
 	if err != nil {
 		return false, err.Error()
 	}
@@ -555,7 +601,7 @@ func replayC20(env *mc.Env, raw json.RawMessage) (bool, string) {
 func init() {
 	mc.Register(&mc.Check{
 		ID: "C20",
-		Rule: "breadth-first search to depth 2 (quick) / 3 (thorough) from every root = (container in {[E], [E; N], {K: V}}) x (element in {Int, ~200-char String, [Int]}; dictionaries also {String: Int} with ~200-char keys) x (start size in {0, 1, inline-1, inline, split-1, split} with the two atree thresholds measured at run time) x (interpreter, VM). Alphabet per state: one 'observe' transaction (length, index reads, slice, reverse, concat, filter, map, contains, firstIndex, toConstantSized/toVariableSized, iteration; dictionaries: reads, keys, values, containsKey, forEachKey with early stop, iteration), every mutation (append, appendAll, insert, remove, removeFirst/Last, index write, replace-by reverse/slice/concat/filter/map, dictionary insert/remove/index write/nil write) at positions {0, mid, last/end}, every invalid-index variant {len, len+1, -1}, slice over ALL 25 (from, upTo) pairs of {0, mid, last, len, len+1} at every root (= every start size class) and over representatives (inverted, past the end, negative, equal out-of-range, equal at len) elsewhere, and bulk macro-operations of 60 elements that cross the thresholds. Every transition is run as its own transaction on the stored container and as a script that replays the whole path in memory; outputs, failures and full final contents (decoded from the committed ledger / the script result) are compared with a Go slice/map model; rtx.Health before states merge. Non-trivial = transition that changes the number of slabs, or an index error.",
+		Rule: "breadth-first search to depth 2 (quick) / 3 (thorough) from every root = (container in {[E], [E; N], {K: V}}) x (element in {Int, ~200-char String, [Int]}; dictionaries also {String: Int} with ~200-char keys; and elements too large to inline, so that even a one-element single-slab container holds slab references: Int and UInt 2^4096+id, ~900-char String, {UInt64: UInt}, {Int: Int} with 2^4096+id keys) x (start size in {0, 1, inline-1, inline, split-1, split} with the two atree thresholds measured at run time by slab count; for the too-large-to-inline elements that yields start sizes 0, 1, 2 and the 60-element bulk operations reach the multi-slab sizes) x (interpreter, VM). Alphabet per state: one 'observe' transaction (length, index reads, slice, reverse, concat, filter, map, contains, firstIndex, toConstantSized/toVariableSized, iteration; dictionaries: reads, keys, values, containsKey, forEachKey with early stop, iteration), every mutation (append, appendAll, insert, remove, removeFirst/Last, index write, replace-by reverse/slice/concat/filter/map, dictionary insert/remove/index write/nil write) at positions {0, mid, last/end}, every invalid-index variant {len, len+1, -1}, slice over ALL 25 (from, upTo) pairs of {0, mid, last, len, len+1} at every root (= every start size class) and over representatives (inverted, past the end, negative, equal out-of-range, equal at len) elsewhere, and bulk macro-operations of 60 elements that cross the thresholds. Every transition is run as its own transaction on the stored container and as a script that replays the whole path in memory; outputs, failures and full final contents (decoded from the committed ledger / the script result) are compared with a Go slice/map model; rtx.Health before states merge. Non-trivial = transition that changes the number of slabs, or an index error.",
 		Assumptions: []string{
 			"'index error' is judged as: the operation fails with a user-class error and leaves the container unchanged; the Go error type is not required by name",
 			"dictionary enumeration order is unspecified: keys are compared as a set, values/iteration by pairing with keys",
